@@ -77,9 +77,33 @@ class RuleContext:
     def note(self, text):
         self.notes.append(text)
 
+    def sub(self, prefix):
+        """a view of this context that prefixes rule ids (for rules shared between properties)"""
+        return _SubContext(self, prefix)
+
     @property
     def violations(self):
         return [o for o in self.obligations if not o.ok]
+
+
+class _SubContext:
+    def __init__(self, ctx, prefix):
+        self._ctx, self._prefix = ctx, prefix
+
+    def __getattr__(self, name):
+        return getattr(self._ctx, name)
+
+    def ob(self, rule, key, loc, text, ok, detail=None, nontrivial=True):
+        return self._ctx.ob("%s.%s" % (self._prefix, rule), key, loc, text, ok, detail, nontrivial)
+
+    def count(self, name, n=1):
+        return self._ctx.count("%s.%s" % (self._prefix, name), n)
+
+    def floor(self, name, minimum):
+        return self._ctx.floor("%s.%s" % (self._prefix, name), minimum)
+
+    def sub(self, prefix):
+        return _SubContext(self._ctx, self._prefix + "." + prefix)
 
 
 def load_known():
